@@ -27,6 +27,10 @@ type C18Case struct {
 	// Depth: directory nesting of each package below the layout root (0: p<i>, 1: sub/p<i>, 2: sub/deep/p<i>);
 	// relative import paths are relative to the importing package's own directory
 	Depth []int `json:"depth,omitempty"`
+	// Leaf: when set, package i lives in a directory named p<Leaf[i]> (two packages at different depths may
+	// then share the directory name, so that one and the same relative path text - `../p3` - written in two
+	// importers means two different packages)
+	Leaf []int `json:"leaf,omitempty"`
 	// Rogue: pairs (i, j): package i refers to a type of package j's namespace without importing j
 	Rogue [][2]int `json:"rogue,omitempty"`
 	// Usable: also generate C++ and Python for the root and check that the C++ types compile and the
@@ -36,14 +40,18 @@ type C18Case struct {
 
 const importLimit = 10 // packaging.MaxImportRecursionDepth; re-stated here, checked against the source by TestC18Limit
 
-const c18Rule = "import graphs: exhaustive (all adjacency matrices on up to 3 packages in quick, 4 in thorough, self-loops included, each with the declared order and a permuted order of every import list) and random (5-14 packages with chains of 8-12 edges around the limit, shortcuts, diamonds, cycles away from the root, two directories declaring one namespace, relative/absolute/redundant path spellings, a third of them with the packages at different directory depths so that the same relative path means different directories for different importers). oracle = reference loader over the abstract graph: reachable cycle or reachable namespace clash or every path to some package has more than 10 edges => error; all paths at most 9 edges and no cycle/clash => exit 0, model.json lists exactly the reachable namespaces once each with exactly their own definitions and cross-namespace references resolve; a package that refers to a namespace neither it nor its imports import must be rejected (all three-package graphs with such a reference, and a fifth of the random ones); for graphs with a shared import (exhaustive part) and one random graph in forty-eight C++ and Python are generated as well and the C++ types must compile and the Python package import (the loaded packages are usable from their importers); verdict and namespace->definitions map invariant under permutation of import lists. non-trivial = graph has a diamond, a cycle not through the root, a clash or a chain of at least 9 edges; distinct = canonical text of the graph"
+const c18Rule = "import graphs: exhaustive (all adjacency matrices on up to 3 packages in quick, 4 in thorough, self-loops included, each with the declared order and a permuted order of every import list) and random (5-14 packages with chains of 8-12 edges around the limit, shortcuts, diamonds, cycles away from the root, two directories declaring one namespace, relative/absolute/redundant path spellings, a third of them with the packages at different directory depths so that relative paths differ per importer, half of those with two import edges whose relative path text is the same while the packages they mean differ: a directory name shared one level apart). oracle = reference loader over the abstract graph: reachable cycle or reachable namespace clash or every path to some package has more than 10 edges => error; all paths at most 9 edges and no cycle/clash => exit 0, model.json lists exactly the reachable namespaces once each with exactly their own definitions and cross-namespace references resolve; a package that refers to a namespace neither it nor its imports import must be rejected (all three-package graphs with such a reference, and a fifth of the random ones); for graphs with a shared import (exhaustive part) and one random graph in forty-eight C++ and Python are generated as well and the C++ types must compile and the Python package import (the loaded packages are usable from their importers); verdict and namespace->definitions map invariant under permutation of import lists. non-trivial = graph has a diamond, a cycle not through the root, a clash or a chain of at least 9 edges; distinct = canonical text of the graph"
 
 func (c C18Case) dirOf(i int) string {
 	d := 0
 	if i < len(c.Depth) {
 		d = c.Depth[i]
 	}
-	return []string{"", "sub/", "sub/deep/"}[d%3] + fmt.Sprintf("p%d", i)
+	leaf := i
+	if i < len(c.Leaf) {
+		leaf = c.Leaf[i]
+	}
+	return []string{"", "sub/", "sub/deep/"}[d%3] + fmt.Sprintf("p%d", leaf)
 }
 
 func (c C18Case) layout(root string) model.Layout {
@@ -65,7 +73,7 @@ func (c C18Case) layout(root string) model.Layout {
 				case 1:
 					p = filepath.Join(root, c.dirOf(j))
 				case 2:
-					p = "./" + rel + fmt.Sprintf("/../p%d", j)
+					p = "./" + rel + "/../" + filepath.Base(c.dirOf(j))
 				case 3:
 					p = rel + "/"
 				default:
@@ -554,6 +562,33 @@ func genC18(t *rapid.T) C18Case {
 		for i := 1; i < n; i++ {
 			c.Depth[i] = rapid.IntRange(0, 2).Draw(t, "depth")
 		}
+		if rapid.Bool().Draw(t, "twins") {
+			// two import edges a -> x and b -> y (x != y) whose relative path texts are made equal: x sits
+			// beside a, y beside b one level further down, and y's directory takes x's name
+			var edges [][2]int
+			for a, l := range c.Imports {
+				for _, x := range l {
+					if x != 0 && x != a {
+						edges = append(edges, [2]int{a, x})
+					}
+				}
+			}
+			if len(edges) >= 2 {
+				e1 := edges[rapid.IntRange(0, len(edges)-1).Draw(t, "twinEdge1")]
+				e2 := edges[rapid.IntRange(0, len(edges)-1).Draw(t, "twinEdge2")]
+				a, x, b, y := e1[0], e1[1], e2[0], e2[1]
+				if x != y && b != 0 && b != x && a != y && a != b && b != y {
+					c.Depth[x] = c.Depth[a]
+					c.Depth[b] = (c.Depth[a] + 1) % 3
+					c.Depth[y] = c.Depth[b]
+					c.Leaf = make([]int, n)
+					for i := range c.Leaf {
+						c.Leaf[i] = i
+					}
+					c.Leaf[y] = x
+				}
+			}
+		}
 	}
 	if rapid.IntRange(0, 4).Draw(t, "rogue") == 0 {
 		a := rapid.IntRange(0, n-1).Draw(t, "rogueFrom")
@@ -664,6 +699,12 @@ func TestC18(t *testing.T) {
 		if c.nontrivial() {
 			rec.Nontrivial(core.Hash(c.Imports, c.Ns))
 			rec.Sample(map[string]any{"imports": c.Imports, "ns": c.Ns, "expect": ref.Why})
+		}
+		if len(c.Depth) > 0 {
+			rec.Class("random:nested-directories")
+		}
+		if len(c.Leaf) > 0 {
+			rec.Class("random:same-relative-path-two-packages")
 		}
 		report(rt, rec, checkC18(c), c)
 	})
